@@ -77,7 +77,14 @@ MODE_FLAG = {"-E": "E", "-emit-qbe": "emit-qbe", "-S": "S", "-c": "c"}
 MODE_EXT = {"emit-qbe": "qbe", "S": "s", "c": "o"}
 
 # defect models (DESIGN 2.9): a failure is given one of these signatures only if the observation
-# equals what the model predicts with exactly that rule changed
+# equals what the model predicts with exactly that rule changed:
+#   emit-qbe-default-output   -emit-qbe without -o writes <name>.qbe (cproc.1: standard output)
+#   pthread-not-as-lpthread   -pthread puts "-l pthread" among the linker options, before the start files
+#                             and objects, not where -lpthread would be (cproc.1: "short hand of -lpthread")
+#   header-passed-to-linker   a c-header input on a link line is not built (correct) but its name is
+#                             handed to the linker
+# A fourth signature, "missing-argument-not-refused:<option>", is given when a command line that ends in
+# an option lacking its argument is not refused (judge()).
 VARIANTS = ["emit-qbe-default-output", "pthread-not-as-lpthread", "header-passed-to-linker"]
 
 
